@@ -40,6 +40,8 @@ fn plugins_variants() -> Vec<Option<&'static str>> {
         Some("{\"typegen\":{\"projectPath\":\"./old\",\"outputPath\":\"./old-out\",\"validationLibrary\":\"zod\"}}"),
         Some("{\"typegen\":{\"projectPath\":\"./old\",\"futureKey\":{\"x\":[1,2]},\"another\":null},\"fs\":{\"scope\":[\"$APP/*\"]}}"),
         Some("{\"updater\":null,\"typegen\":null}"),
+        // an entry that already carries every optional setting: what is written replaces it
+        Some("{\"typegen\":{\"projectPath\":\"./old\",\"outputPath\":\"./old-out\",\"validationLibrary\":\"zod\",\"verbose\":true,\"visualizeDeps\":true,\"includePrivate\":true,\"force\":true,\"typeMappings\":{\"Decimal\":\"string\"},\"excludePatterns\":[\"legacy\"],\"includePatterns\":[\"src/**\"],\"defaultParameterCase\":\"snake_case\",\"defaultFieldCase\":\"camelCase\"}}"),
     ]
 }
 
@@ -244,6 +246,10 @@ pub struct PrecCase {
     pub file: FileVals,
     /// bit 0: -p alt, 1: -o flag-out, 2: -v (zod unless file says zod, then none), 3: --verbose, 4: --force
     pub flags: u8,
+    /// the value flags are given with the built-in default values (-p ./src-tauri, -o ./src/generated,
+    /// -v none): a flag that is present wins even then
+    #[serde(default)]
+    pub flag_defaults: bool,
 }
 
 const P_DEFAULT: &str = "./src-tauri";
@@ -303,9 +309,9 @@ fn effective(c: &PrecCase) -> Effective {
     let file_present = c.source != Source::NoFile;
     let fv = |x: &Option<String>| if file_present { x.clone() } else { None };
     Effective {
-        project: if c.flags & 1 != 0 { P_ALT.into() } else { fv(&c.file.project).map(|p| project_path_of(&p).to_string()).unwrap_or(P_DEFAULT.into()) },
-        output: if c.flags & 2 != 0 { "./out-flag".into() } else { fv(&c.file.output).map(|o| format!("./out-{}", o)).unwrap_or("./src/generated".into()) },
-        validation: if c.flags & 4 != 0 { flag_validation(&c.file).into() } else { fv(&c.file.validation).unwrap_or("none".into()) },
+        project: if c.flags & 1 != 0 { if c.flag_defaults { P_DEFAULT.into() } else { P_ALT.into() } } else { fv(&c.file.project).map(|p| project_path_of(&p).to_string()).unwrap_or(P_DEFAULT.into()) },
+        output: if c.flags & 2 != 0 { if c.flag_defaults { "./src/generated".into() } else { "./out-flag".into() } } else { fv(&c.file.output).map(|o| format!("./out-{}", o)).unwrap_or("./src/generated".into()) },
+        validation: if c.flags & 4 != 0 { if c.flag_defaults { "none".into() } else { flag_validation(&c.file).into() } } else { fv(&c.file.validation).unwrap_or("none".into()) },
         verbose: c.flags & 8 != 0 || (file_present && c.file.verbose == Some(true)),
         force: c.flags & 16 != 0 || (file_present && c.file.force == Some(true)),
     }
@@ -318,13 +324,13 @@ fn args_for(c: &PrecCase) -> Vec<String> {
         a.push("cfg.json".into());
     }
     if c.flags & 1 != 0 {
-        a.extend(["-p".to_string(), P_ALT.to_string()]);
+        a.extend(["-p".to_string(), if c.flag_defaults { P_DEFAULT.to_string() } else { P_ALT.to_string() }]);
     }
     if c.flags & 2 != 0 {
-        a.extend(["-o".to_string(), "./out-flag".to_string()]);
+        a.extend(["-o".to_string(), if c.flag_defaults { "./src/generated".to_string() } else { "./out-flag".to_string() }]);
     }
     if c.flags & 4 != 0 {
-        a.extend(["-v".to_string(), flag_validation(&c.file).to_string()]);
+        a.extend(["-v".to_string(), if c.flag_defaults { "none".to_string() } else { flag_validation(&c.file).to_string() }]);
     }
     if c.flags & 8 != 0 {
         a.push("--verbose".into());
@@ -386,7 +392,7 @@ pub fn eval_prec(c: &PrecCase) -> (Vec<Violation>, u64, String) {
             .field("part", "precedence")
             .field("source", format!("{:?}", c.source))
             .field("invalid_in_file", if inval.is_empty() { "-".to_string() } else { inval.join("+") })
-            .field("flags", format!("{:05b}", c.flags))
+            .field("flags", format!("{:05b}{}", c.flags, if c.flag_defaults { " (default values)" } else { "" }))
             .rank((c.flags.count_ones() + [c.file.project.is_some(), c.file.output.is_some(), c.file.validation.is_some(), c.file.verbose.is_some(), c.file.force.is_some()].iter().filter(|x| **x).count() as u32) as u64)
     };
     let mut vs = vec![];
@@ -497,18 +503,24 @@ pub fn run(tier: Tier) -> CheckResult {
     for src in &sources {
         if *src == Source::NoFile {
             for flags in 0..32u8 {
-                pcases.push(PrecCase { source: *src, file: FileVals::default(), flags });
+                pcases.push(PrecCase { source: *src, file: FileVals::default(), flags, flag_defaults: false });
             }
             continue;
         }
         for f in &single_field_files {
             for flags in 0..32u8 {
-                pcases.push(PrecCase { source: *src, file: f.clone(), flags });
+                pcases.push(PrecCase { source: *src, file: f.clone(), flags, flag_defaults: false });
+            }
+        }
+        // value flags spelled with the built-in defaults against files that say otherwise
+        for f in [&multi[0], &multi[4], &multi[5]] {
+            for flags in [1u8, 2, 4, 3, 6, 7, 23] {
+                pcases.push(PrecCase { source: *src, file: f.clone(), flags, flag_defaults: true });
             }
         }
         for f in multi.iter_mut() {
             for flags in [0u8, 1, 2, 4, 3, 5, 7, 31, 24, 16, 8] {
-                pcases.push(PrecCase { source: *src, file: f.clone(), flags });
+                pcases.push(PrecCase { source: *src, file: f.clone(), flags, flag_defaults: false });
             }
         }
     }
@@ -529,7 +541,7 @@ pub fn run(tier: Tier) -> CheckResult {
     all_v.sort_by_key(|v| (v.rank, v.key()));
     let mut seen = BTreeSet::new();
     for v in all_v {
-        let k = if v.fields["part"] == "roundtrip" { format!("{}|{}", v.class, v.fields["plugins"]) } else { format!("{}|{}|{}", v.class, v.fields["source"], v.fields["invalid_in_file"]) };
+        let k = if v.fields["part"] == "roundtrip" { format!("{}|{}", v.class, v.fields["plugins"]) } else { format!("{}|{}|{}|{}", v.class, v.fields["source"], v.fields["invalid_in_file"], v.fields["flags"].contains("default")) };
         if seen.insert(k) {
             let mut v = v;
             v.fields.remove("flags");
@@ -547,7 +559,7 @@ pub fn run(tier: Tier) -> CheckResult {
     res.coverage.set("distinct_outcomes", outcomes.len() as u64);
     res.coverage.set("exhaustive", exhaustive);
     res.coverage.set("samples", json!([docs[docs.len() / 3], docs[docs.len() - 2], pcases[pcases.len() / 2]]));
-    res.coverage.set("rule", "Part A (in process): JSON documents with 0..2 (quick) / 0..3 (thorough) extra top-level members whose values range over the i64/u64 extremes, decimals, exponents, -0.0, escaped and non-ASCII strings, nested arrays/objects (also as one-level objects), crossed with six shapes of the plugins section (absent, empty, other plugins, existing typegen entry, typegen entry with unknown keys, null entries) at varying key positions, crossed with three settings objects; save_to_tauri_config then: document minus plugins.typegen is value-equal to the original, and from_tauri_config returns the persisted settings. Part B (real binary): for each configuration source (none, the discovered tauri.conf.json locations, --config file) every single-field file (absent / valid values / invalid value) x all 32 flag subsets, plus multi-field files x 11 flag subsets; effective setting = first-defined(flag, file, default), observed through which directory receives output, which project's command is wrapped, the Generator header line, verbose output, regeneration over a matching cache; invalid effective library / missing project path => non-zero exit and an unchanged sandbox tree.");
+    res.coverage.set("rule", "Part A (in process): JSON documents with 0..2 (quick) / 0..3 (thorough) extra top-level members whose values range over the i64/u64 extremes, decimals, exponents, -0.0, escaped and non-ASCII strings, nested arrays/objects (also as one-level objects), crossed with seven shapes of the plugins section (absent, empty, other plugins, existing typegen entry, typegen entry with unknown keys, null entries, typegen entry carrying every optional setting) at varying key positions, crossed with three settings objects; save_to_tauri_config then: document minus plugins.typegen is value-equal to the original, and from_tauri_config returns the persisted settings. Part B (real binary): for each configuration source (none, the discovered tauri.conf.json locations, --config file) every single-field file (absent / valid values / invalid value) x all 32 flag subsets, plus multi-field files x 11 flag subsets, plus value flags spelled with the built-in default values against files that say otherwise; effective setting = first-defined(flag, file, default), observed through which directory receives output, which project's command is wrapped, the Generator header line, verbose output, regeneration over a matching cache; invalid effective library / missing project path => non-zero exit and an unchanged sandbox tree.");
     res.assumptions = vec!["integers outside the i64/u64 range are not part of the document alphabet (serde_json reads them as floats)".into()];
     res
 }
